@@ -12,8 +12,10 @@ import (
 	"sort"
 	"strconv"
 	"strings"
+	"time"
 
 	"github.com/nextmv-io/nextroute"
+	"github.com/nextmv-io/nextroute/check"
 	"github.com/nextmv-io/nextroute/factory"
 	"github.com/nextmv-io/nextroute/schema"
 )
@@ -283,6 +285,54 @@ func (c *engineCtx) queryBest(id string, step int, sol nextroute.Solution, unit 
 		id, step, bm.IsExecutable(), bv, bruteExec, mn, count, allowedCount, len(unit.SolutionStops()))
 }
 
+func (c *engineCtx) stopIndexOfID(id string) int {
+	for _, st := range c.model.Stops() {
+		if st.ID() == id {
+			return st.Index()
+		}
+	}
+	return -1
+}
+
+// format prints factory.ToSolutionOutput canonically.
+func (c *engineCtx) format(id string, step int, sol nextroute.Solution) {
+	o := factory.ToSolutionOutput(sol)
+	p := fmt.Sprintf("%s %d fmt", id, step)
+	for vi, v := range o.Vehicles {
+		fmt.Fprintf(out, "%s veh %d dur %d travel %d dist %d stopsdur %d wait %d\n", p, vi,
+			v.RouteDuration, v.RouteTravelDuration, v.RouteTravelDistance, v.RouteStopsDuration, v.RouteWaitingDuration)
+		for _, st := range v.Route {
+			tm := func(t *time.Time) string {
+				if t == nil {
+					return "-"
+				}
+				return strconv.FormatInt(t.Unix(), 10)
+			}
+			fmt.Fprintf(out, "%s stop %d %d tr %d ct %d dur %d wait %d dist %d cumdist %d a %s s %s e %s\n", p, vi,
+				c.stopIndexOfID(st.Stop.ID), st.TravelDuration, st.CumulativeTravelDuration, st.Duration, st.WaitingDuration,
+				st.TravelDistance, st.CumulativeTravelDistance, tm(st.ArrivalTime), tm(st.StartTime), tm(st.EndTime))
+		}
+	}
+	var un []int
+	for _, u := range o.Unplanned {
+		un = append(un, c.stopIndexOfID(u.ID))
+	}
+	sort.Ints(un)
+	us := make([]string, len(un))
+	for i, x := range un {
+		us[i] = strconv.Itoa(x)
+	}
+	fmt.Fprintf(out, "%s unplanned %s\n", p, strings.Join(us, " "))
+	var terms []string
+	sum := 0.0
+	for _, t := range o.Objective.Objectives {
+		terms = append(terms, fmt.Sprintf("%s=%s", t.Name, num(t.Value)))
+		sum += t.Value
+	}
+	sort.Strings(terms)
+	fmt.Fprintf(out, "%s objective %s | %s\n", p, num(o.Objective.Value), strings.Join(terms, " "))
+}
+
 func runEngine(b block) {
 	defer func() {
 		if r := recover(); r != nil {
@@ -502,6 +552,36 @@ func runEngine(b block) {
 				ms, _ := c.model.Stop(si)
 				unit := sol.SolutionPlanStopsUnit(ms.PlanStopsUnit())
 				c.queryBest(b.id, step, sol, unit)
+				fmt.Fprintf(out, "%s %d result done\n", b.id, step)
+			case "q_check":
+				// q_check <verbosity>: nextcheck on the current solution; truthfulness probed on a copy taken before
+				before := sol.Copy()
+				o, err := check.SolutionCheck(sol, check.Options{Duration: 20 * time.Second, Verbosity: fs[2]})
+				if err != nil {
+					fmt.Fprintf(out, "%s %d Q check error %v\n", b.id, step, err)
+				}
+				if o.Error != nil {
+					fmt.Fprintf(out, "%s %d Q check internal-error %s\n", b.id, step, *o.Error)
+				}
+				fmt.Fprintf(out, "%s %d Q check summary moves_failed %d units %d\n", b.id, step, o.Summary.MovesFailed, len(o.PlanUnits))
+				for _, pu := range o.PlanUnits {
+					truthful := "n/a"
+					if pu.HasPlannableBestMove && len(pu.Stops) > 0 {
+						ms, _ := c.model.Stop(c.stopIndexOfID(pu.Stops[0]))
+						probe := before.Copy()
+						var unit nextroute.SolutionPlanUnit = probe.SolutionPlanStopsUnit(ms.PlanStopsUnit())
+						if u, ok := ms.PlanStopsUnit().PlanUnitsUnit(); ok {
+							unit = probe.SolutionPlanUnit(u)
+						}
+						ok, err := probe.BestMove(context.Background(), unit).Execute(context.Background())
+						truthful = strconv.FormatBool(ok && err == nil)
+					}
+					fmt.Fprintf(out, "%s %d Q check unit %s plannable %v failed %v truthful %s\n", b.id, step,
+						strings.Join(pu.Stops, ","), pu.HasPlannableBestMove, pu.BestMoveFailed, truthful)
+				}
+				fmt.Fprintf(out, "%s %d result done\n", b.id, step)
+			case "q_format":
+				c.format(b.id, step, sol)
 				fmt.Fprintf(out, "%s %d result done\n", b.id, step)
 			case "snapall":
 				fmt.Fprintf(out, "%s %d result done\n", b.id, step)
